@@ -142,6 +142,9 @@ DiaV(a) ==
                 \A i \in DOMAIN a.g.tr : T.bare.ctx[i] = NULL \/ T.bare.ctx[i] = a.g.tr[i][1]
                                            \/ (a.g.tr[i][2] # ConceptRole /\ T.bare.ctx[i] = a.g.tr[i][3] /\ a.g.tr[i][3] \in Sources(a.g))>> >>, 1)
          IN IF v # Acc THEN v
+            \* "on graphs without markers the diagnostics answer unknown / False": inverted only where a context is known and is the target
+            ELSE IF \E i \in DOMAIN a.g.tr : T.bare.inv[i] /\ a.g.tr[i][1] # a.g.tr[i][3] /\ (T.bare.ctx[i] = NULL \/ T.bare.ctx[i] # a.g.tr[i][3])
+                 THEN Rej("inverted-without-markers-only-where-the-known-context-is-the-target")
             ELSE LET bare == [top |-> a.g.top, tr |-> a.g.tr, epi |-> [i \in DOMAIN a.g.tr |-> <<>>]] IN
                  IF T.bare.ctx # NodeContexts(bare) \/ T.bare.inv # [i \in DOMAIN bare.tr |-> AppearsInverted(bare, bare.tr[i])]
                  THEN Drift("marker-less diagnostics differ from the stack simulation") ELSE Acc
